@@ -13,7 +13,7 @@ pub fn check() -> Check {
         id: "C56",
         title: "WebRTC stream half-close state machine is safe",
         level: Level::Exploration,
-        rule: "a pair of real webrtc-utils Streams over a clonable simulated data channel, plus a raw injector that inserts FIN / STOP_SENDING / RESET (and data) messages into either direction. exact: 10..60 drawn operations (read, write, flush, close, close_read on either stream; injections), each driven to completion; every result is compared with a reference half-close state machine that consumes the same message sequence (reads allowed only while the read half is open, writes only while the write half is open, ConnectionReset for everything after a processed RESET, data equality message by message). interleaved: operations are polled once (spurious Pending faults leave closes half-done), streams may be dropped (DropListener sends RESET); weak oracle: no panic, once ConnectionReset always ConnectionReset, data read is a prefix of data written. Non-trivial = at least one flag was processed and an operation was attempted after it; distinct = fingerprint of the (operation kind, result class) sequence",
+        rule: "a pair of real webrtc-utils Streams over a clonable simulated data channel, plus a raw injector that inserts FIN / STOP_SENDING / RESET (and data) messages into either direction. exact: 10..60 drawn operations (read, write, flush, close, close_read on either stream; injections), each driven to completion; reads use buffers of 1, 7, 300 or 20000 bytes (so payload stays buffered inside the stream across other operations) and injected flags may carry a payload in the same message; every result is compared with a reference half-close state machine that consumes the same message sequence (reads allowed only while the read half is open, writes only while the write half is open, ConnectionReset for everything after a processed RESET, data equality chunk by chunk, a payload behind FIN / RESET in the same message or left in the buffer when the read half closes is never readable). interleaved: operations are polled once (spurious Pending faults leave closes half-done), streams may be dropped (DropListener sends RESET); weak oracle: no panic, once ConnectionReset always ConnectionReset, data read is a prefix of data written. Non-trivial = at least one flag was processed and an operation was attempted after it; distinct = fingerprint of the (operation kind, result class) sequence",
         assumptions: &["flag messages carry no data (as produced by every libp2p implementation)", "frames are written atomically into the simulated data channel (WebRTC data channels are message oriented)"],
         real: &["libp2p_webrtc_utils::Stream (state.rs, framed_dc, drop_listener)", "prost-codec framing"],
         stub: &["WebRTC data channel -> clonable simkit::pipe end"],
@@ -55,6 +55,8 @@ const RESET: u8 = 2;
 enum Msg {
     Flag(u8),
     Data(Vec<u8>),
+    /// one message carrying a flag and a payload (legal on the wire; other implementations send FIN with the last data)
+    FlagData(u8, Vec<u8>),
 }
 
 fn encode(m: &Msg) -> Vec<u8> {
@@ -65,6 +67,13 @@ fn encode(m: &Msg) -> Vec<u8> {
             body.push(*f);
         }
         Msg::Data(d) => {
+            body.push(0x12);
+            crate::c57::put_varint(d.len() as u64, &mut body);
+            body.extend_from_slice(d);
+        }
+        Msg::FlagData(f, d) => {
+            body.push(0x08);
+            body.push(*f);
             body.push(0x12);
             crate::c57::put_varint(d.len() as u64, &mut body);
             body.extend_from_slice(d);
@@ -107,6 +116,8 @@ struct Model {
     w_closed: bool,
     reset: bool,
     flags_processed: usize,
+    /// payload of the current message not yet handed to the reader (reads with small buffers)
+    leftover: Vec<u8>,
 }
 
 impl Model {
@@ -122,25 +133,41 @@ impl Model {
             }
         }
     }
-    /// expected result of a read with a buffer larger than any message
-    fn read(&mut self) -> (Res, Option<Vec<u8>>) {
-        if self.reset {
-            return (Res::Err(io::ErrorKind::ConnectionReset), None);
-        }
-        if self.r_closed {
-            return (Res::Err(io::ErrorKind::BrokenPipe), None);
-        }
-        if self.consumed >= self.inbound.len() {
-            return (Res::Pending, None);
-        }
-        let m = self.inbound[self.consumed].clone();
-        self.consumed += 1;
-        match m {
-            Msg::Flag(f) => {
-                self.apply_flag(f);
-                (Res::Ok(0), None)
+    /// expected result of a read into a buffer of `cap` bytes
+    fn read(&mut self, cap: usize) -> (Res, Option<Vec<u8>>) {
+        loop {
+            if self.reset {
+                return (Res::Err(io::ErrorKind::ConnectionReset), None);
             }
-            Msg::Data(d) => (Res::Ok(d.len()), Some(d)),
+            if self.r_closed {
+                return (Res::Err(io::ErrorKind::BrokenPipe), None);
+            }
+            if !self.leftover.is_empty() {
+                let n = cap.min(self.leftover.len());
+                let d: Vec<u8> = self.leftover.drain(..n).collect();
+                return (Res::Ok(n), Some(d));
+            }
+            if self.consumed >= self.inbound.len() {
+                return (Res::Pending, None);
+            }
+            let m = self.inbound[self.consumed].clone();
+            self.consumed += 1;
+            match m {
+                Msg::Flag(f) => {
+                    self.apply_flag(f);
+                    return (Res::Ok(0), None);
+                }
+                Msg::Data(d) if d.is_empty() => return (Res::Ok(0), None),
+                Msg::Data(d) => self.leftover = d,
+                Msg::FlagData(f, d) => {
+                    // the flag takes effect before the payload is looked at: a payload behind FIN / RESET is never readable
+                    self.apply_flag(f);
+                    if d.is_empty() {
+                        return (Res::Ok(0), None);
+                    }
+                    self.leftover = d;
+                }
+            }
         }
     }
     fn write(&mut self, n: usize) -> Res {
@@ -149,7 +176,7 @@ impl Model {
             while self.consumed < self.inbound.len() {
                 let m = self.inbound[self.consumed].clone();
                 self.consumed += 1;
-                if let Msg::Flag(f) = m {
+                if let Msg::Flag(f) | Msg::FlagData(f, _) = m {
                     // after a FIN the read half is closed: FIN again changes nothing
                     self.apply_flag(f);
                 }
@@ -238,9 +265,13 @@ fn exact() -> SimResult {
         let desc: String;
         match op {
             0..=2 => {
-                let got = cx_do(|cx| res_usize(Pin::new(&mut *s).poll_read(cx, &mut big)));
-                let (exp, d) = me.model.read();
-                desc = format!("{}.read -> {:?}", me.name, got);
+                let cap = [1usize, 7, 300, 20_000, 20_000][choose(5)];
+                let got = cx_do(|cx| res_usize(Pin::new(&mut *s).poll_read(cx, &mut big[..cap])));
+                let (exp, d) = me.model.read(cap);
+                if !me.model.leftover.is_empty() {
+                    probe("partial_read_leaves_buffered_payload");
+                }
+                desc = format!("{}.read({cap}) -> {:?}", me.name, got);
                 ensure!(got == exp, "C56/read-result", "{}: read returned {got:?}, reference state machine says {exp:?} (model {:?})", me.name, summary(&me.model));
                 if let (Res::Ok(n), Some(d)) = (&got, d) {
                     ensure!(big[..*n] == d[..], "C56/read-data", "{}: read data differs from the message written by the peer", me.name);
@@ -279,10 +310,17 @@ fn exact() -> SimResult {
                 }
             }
             8 => {
-                // raw injector: a flag arrives at `me` (as if the peer's implementation sent it)
+                // raw injector: a flag arrives at `me` (as if the peer's implementation sent it), alone or together with a payload
                 let f = [FIN, STOP, RESET][choose(3)];
-                me.ctl.inject_rx(&encode(&Msg::Flag(f)));
-                me.model.inbound.push(Msg::Flag(f));
+                let m = if choose(3) == 0 {
+                    seq += 1;
+                    probe("flag_with_payload_injected");
+                    Msg::FlagData(f, data(9, seq, [0usize, 1, 20, 300][choose(4)]))
+                } else {
+                    Msg::Flag(f)
+                };
+                me.ctl.inject_rx(&encode(&m));
+                me.model.inbound.push(m);
                 desc = format!("inject flag {f} -> {}", me.name);
                 fired(["inject_fin", "inject_stop_sending", "inject_reset"][f as usize]);
             }
